@@ -62,9 +62,9 @@ def matchProto (incoming name version : Bytes) : Decision :=
   | _ => .noMatchErr
 
 /-- the identifier the node itself uses for a protocol: "/name/version" -/
-def protoId (name version : Bytes) : Bytes := 47 :: name ++ 47 :: version
+def protoId (name version : Bytes) : Bytes := 47 :: (name ++ (47 :: version))
 
 def showVersion (v : Version) : Bytes :=
-  showDec v.major ++ 46 :: showDec v.minor ++ 46 :: showDec v.patch
+  showDec v.major ++ (46 :: (showDec v.minor ++ (46 :: showDec v.patch)))
 
 end MevCommit.Semver
